@@ -655,24 +655,38 @@ def rule_cache(chk):
     gr = M.find_func(nc, 'get_neighbors_raw')
     did = gr.args.args[1].arg
     out = gr.args.args[2].arg
-    miss = [i for i in gr.body if isinstance(i, ast.If) and same(i.test, 'self._cached.data[%s]==0' % did) and
-            any(M.call_name(c) == 'self._find_neighbors' and [compact(x) for x in c.args] == [did] for c in M.calls(i))]
-    view = [c for c in M.calls(gr) if M.call_name(c) == out + '.c_set_view']
-    ok = len(miss) == 1 and len(view) == 1 and miss[0].lineno < view[0].lineno
-    if ok:
-        ptr, n = view[0].args
-        el = ptr.args[0] if isinstance(ptr, ast.Call) and M.call_name(ptr) == '__addr__' else None
-        ok = isinstance(el, ast.Subscript) and compact(el.value).endswith('.data')
-        if ok:
-            s_e = resolve(gr, el.slice)
-            bufx = el.value.value
-            t_e = resolve(gr, bufx.slice) if isinstance(bufx, ast.Subscript) else None
-            n_e = n
-            ok = same(s_e, 'self._start_stop.data[2*%s]' % did) and t_e is not None and same(t_e, 'self._pid_to_tid.data[%s]' % did) and compact(bufx.value) == 'self._neighbors'
-            if ok and isinstance(n_e, ast.BinOp) and isinstance(n_e.op, ast.Sub):
-                ok = same(resolve(gr, n_e.left), 'self._start_stop.data[2*%s+1]' % did) and same(resolve(gr, n_e.right), 'self._start_stop.data[2*%s]' % did)
-            else:
+    # per path, with locals and pointer aliases substituted: a particle not yet cached is filled first; the view handed out is [start, stop) of the buffer of the thread
+    # that recorded the particle
+    X_ = 'self._cached.data[%s]' % did
+    ok, n_miss, n_hit = True, 0, 0
+    for p_ in PT.enumerate_paths(M.docstring_stripped(gr.body)):
+        if p_[-1].kind == 'raise':
+            continue
+        cl = PT.calls_on(p_)
+        views = [(i, c, env) for i, c, cal, env in cl if cal == out + '.c_set_view']
+        fills = [i for i, c, cal, env in cl if cal == 'self._find_neighbors' and [compact(PT.resolve(x, env)) for x in c.args] == [did]]
+        miss_t = PT.took(p_, True, X_ + ' == 0')
+        if miss_t is None:
+            miss_t = PT.took(p_, False, X_)
+        hit_t = PT.took(p_, False, X_ + ' == 0')
+        if hit_t is None:
+            hit_t = PT.took(p_, True, X_)
+        if len(views) != 1 or len(views[0][1].args) != 2 or (miss_t is None and hit_t is None):
+            ok = False
+            continue
+        iv, vc, venv = views[0]
+        if miss_t is not None:
+            n_miss += 1
+            if not fills or not (miss_t < fills[0] < iv):
                 ok = False
+        else:
+            n_hit += 1
+        ptr, n_e = [PT.resolve(x, venv) for x in vc.args]
+        want_ptr = '__addr__(self._neighbors[self._pid_to_tid.data[%s]].data[self._start_stop.data[2*%s]])' % (did, did)
+        want_n = 'self._start_stop.data[2*%s+1] - self._start_stop.data[2*%s]' % (did, did)
+        if not (same(ptr, want_ptr) and same(n_e, want_n)):
+            ok = False
+    ok = ok and n_miss > 0 and n_hit > 0
     # the caller's array is re-pointed on every path (also for a particle without neighbours: a view of length 0, not whatever the array held before)
     gpaths = PT.enumerate_paths(M.docstring_stripped(gr.body))
     unset = [p_ for p_ in gpaths if p_[-1].kind != 'raise' and not any(cal == out + '.c_set_view' for i, c, cal, env in PT.calls_on(p_))]
@@ -1222,6 +1236,50 @@ def rule_level_cell_size(chk):
                detail_ok='the table of level maxima is read-only while binning')
 
 
+def rule_level_stencil(chk):
+    """StratifiedHashNNPS searches, on every level, the cells within H_level cells of the query's cell, the cells of the level being hmax_level/self.H wide: the span
+    H_level * (hmax_level/self.H) must reach max(radius_scale*h_query, hmax_level) - the query's own radius as well as that of the level's particles (gather or scatter).
+    Decided per path through the level loop, with locals substituted: H_level = ceil(max(radius_scale*h, hmax_level) * self.H / hmax_level)"""
+    from verif_static import paths as PT
+    rel = 'pysph/base/stratified_hash_nnps.pyx'
+    t = M.cy(rel)
+    fn = M.find_func(M.find_class(t, 'StratifiedHashNNPS'), 'find_nearest_neighbors')
+    who = 'StratifiedHashNNPS.find_nearest_neighbors'
+    n, bad = 0, None
+    hq = None
+    for p_ in PT.enumerate_paths(M.docstring_stripped(fn.body)):
+        for i, c, cal, env in PT.calls_on(p_):
+            if cal != 'self._neighbor_boxes' or not c.args:
+                continue
+            n += 1
+            Hx = PT.resolve(c.args[-1], env)
+            cells = [c2 for i2, c2, cal2, env2 in PT.calls_on(p_) if cal2 == 'find_cell_id_raw' and i2 <= i and len(c2.args) >= 4]
+            if not cells:
+                bad = bad or 'the cell of the query is not computed before the boxes'
+                continue
+            edge = PT.resolve(cells[-1].args[3], env)
+            lv = [x for x in ast.walk(edge) if isinstance(x, ast.Call) and (M.call_name(x) or '').endswith('_get_h_max')]
+            if not lv or not same(edge, '(%s)/self.H' % U(lv[0])):
+                bad = bad or 'cells of a level are %s wide' % U(edge)[:80]
+                continue
+            L = U(lv[0])
+            # the smoothing length of the query point: what the gather radius hi2 = radius_scale2*h*h is computed from
+            if hq is None:
+                for a_ in ast.walk(fn):
+                    if isinstance(a_, (ast.Assign, ast.AnnAssign)) and a_.value is not None and compact(a_.targets[0] if isinstance(a_, ast.Assign) else a_.target) == 'hi2':
+                        names_ = [x for x in ast.walk(a_.value) if isinstance(x, ast.Name) and x.id not in ('self',)]
+                        hq = names_[0].id if names_ else None
+            hres = U(PT.resolve(ast.Name(id=hq or 'h', ctx=ast.Load()), env))
+            wants = ['ceil(fmax(self.radius_scale*(%s), %s)*self.H/(%s))' % (hres, L, L), 'ceil(fmax(self.radius_scale*(%s), %s)/((%s)/self.H))' % (hres, L, L),
+                     'ceil(max(self.radius_scale*(%s), %s)*self.H/(%s))' % (hres, L, L)]
+            if not any(same(Hx, w_) for w_ in wants):
+                bad = bad or 'the search spans %s cells of width %s' % (U(Hx)[:90], U(edge)[:50])
+    chk.decide(n > 0 and bad is None, 'stencil-covers-cutoff', 'StratifiedHashNNPS:level-search-span', node=fn, file=rel, func=who,
+               detail_bad='%s: on a level whose cells are narrower than the query\'s own radius (a destination with a larger h than the source level) the cells searched do not cover '
+                          'radius_scale*h of the query, so gather neighbours are missed' % (bad or 'no level search found'),
+               detail_ok='H_level = ceil(max(radius_scale*h, hmax_level)*H/hmax_level) on every path (%d)' % n)
+
+
 def rule_octree(chk):
     """tree searches prune a node only when neither the query's radius nor the largest source radius in the node reaches it"""
     from verif_static import symb as S
@@ -1689,6 +1747,7 @@ def main(chk):
     rule_coindexed(chk)
     rule_cell_size(chk)
     rule_cell_counts(chk)
+    rule_level_stencil(chk)
     rule_no_pruning(chk, ci, concrete)
     rule_octree(chk)
     rule_subcell_radius(chk)
